@@ -15,6 +15,7 @@ def step (line : String) : String :=
   | "pipe.replay" :: args => handlePipeReplay args
   | "pipe.stuck" :: args => handlePipeStuck args
   | "confine.enclosed" :: args => handleEnclosed args
+  | "confine.plain" :: args => handlePlain args
   | "llvm.model" :: args => handleLlvmModel args
   | "c03.covdir" :: args => handleCovdirArray args
   | "c03.html" :: args => handleHtmlCounts args
